@@ -2,6 +2,7 @@ package harness
 
 import (
 	"bytes"
+	"encoding/binary"
 	"fmt"
 	"io"
 	"sync"
@@ -27,6 +28,7 @@ type c10Stream struct {
 	subPos []int // enumerated substitution positions
 	hdrPos []int // member-header positions that get all 255 values (quick tier)
 	big    bool
+	reblk  bool // BAM re-blocked: member boundaries inside the header and inside records
 }
 
 type c10Case struct {
@@ -67,7 +69,7 @@ func (p *c10) Init(t *testing.T, seed uint64, tier string) {
 func (p *c10) Runs(tier string) int {
 	if tier == "quick" {
 		n := 0
-		for i := 0; i < 4; i++ {
+		for i := 0; i < 5; i++ {
 			n += p.stream(i).count
 		}
 		return n
@@ -82,7 +84,7 @@ func (p *c10) stream(i int) *c10Stream {
 	for len(p.streams) <= i {
 		j := len(p.streams)
 		t := NewTape(p.seed, "C10-stream", j)
-		s := &c10Stream{bam: j%2 == 1, nval: 10, big: j%4 == 3}
+		s := &c10Stream{bam: j%2 == 1 || j%8 == 4, nval: 10, big: j%4 == 3, reblk: j%8 == 4}
 		if p.tier == "thorough" {
 			s.nval = 255
 		}
@@ -113,6 +115,9 @@ func (p *c10) stream(i int) *c10Stream {
 			}
 		} else {
 			s.hdr = genHdr(t)
+			for s.reblk && len(s.hdr.Refs) < 3 {
+				s.hdr.Refs = append(s.hdr.Refs, RefSpec{Name: fmt.Sprintf("chrz%d", len(s.hdr.Refs)), Len: 1000 + len(s.hdr.Refs)})
+			}
 			for k, n := 0, 2+t.Draw("work", 8); k < n; k++ {
 				s.recs = append(s.recs, genRec(t, len(s.hdr.Refs), 0, k))
 			}
@@ -145,6 +150,58 @@ func (p *c10) stream(i int) *c10Stream {
 				off += len(s.recs[k].EncodeBAM())
 			}
 			s.recAt = append(s.recAt, off)
+			if err := bw.Close(); err != nil {
+				panic(err)
+			}
+		}
+		if s.reblk {
+			// The same uncompressed BAM stream with member boundaries where
+			// bam.Writer never puts them: between and inside the fields of the
+			// binary header (magic, l_text, text, n_ref, each reference record)
+			// and inside records. A cut at such a boundary is a clean end of
+			// the BGZF layer in the middle of a BAM structure.
+			f0, err := NewFlat(file.Data)
+			if err != nil {
+				panic("c10: generated stream does not parse: " + err.Error())
+			}
+			data := f0.Data
+			ltext := int(binary.LittleEndian.Uint32(data[4:8]))
+			cand := []int{4, 8, 8 + ltext/2, 8 + ltext, 12 + ltext}
+			o := 12 + ltext
+			for range s.hdr.Refs {
+				lname := int(binary.LittleEndian.Uint32(data[o : o+4]))
+				cand = append(cand, o+4, o+4+lname, o+8+lname)
+				o += 8 + lname
+			}
+			if o != s.recAt[0] {
+				panic("c10: binary header layout differs from the model")
+			}
+			for k := 0; k+1 < len(s.recAt); k++ {
+				cand = append(cand, s.recAt[k]+2, s.recAt[k]+4, s.recAt[k]+36, s.recAt[k+1])
+			}
+			var cuts []int
+			last := 0
+			for _, q := range cand {
+				if q > last && q < len(data) && t.Chance("work", 1, 2) {
+					cuts = append(cuts, q)
+					last = q
+				}
+			}
+			file = &File{X: x, Name: "gen2"}
+			bw, err := bgzf.NewWriterLevel(file.W(), t.Pick("work", -1, 1), 1)
+			if err != nil {
+				panic(err)
+			}
+			last = 0
+			for _, q := range append(cuts, len(data)) {
+				if _, err := bw.Write(data[last:q]); err != nil {
+					panic(err)
+				}
+				if err := bw.Flush(); err != nil {
+					panic(err)
+				}
+				last = q
+			}
 			if err := bw.Close(); err != nil {
 				panic(err)
 			}
@@ -273,6 +330,7 @@ func (p *c10) Exec(x *Exec, ci interface{}) *Verdict {
 	var recBad string
 	var hasEOF bool
 	var hasEOFErr error
+	var openFailed bool // bam.NewReader returned no reader: a failure whatever the error value
 	res := x.RunSim("read", estReadSteps(len(img), c.Chunk, c.Kind, c.Delay)*2+40*len(s.recs), func() {
 		hasEOF, hasEOFErr = bgzf.HasEOF(file.RA())
 		if !s.bam {
@@ -292,6 +350,7 @@ func (p *c10) Exec(x *Exec, ci interface{}) *Verdict {
 		br, err := bam.NewReader(file.As(c.Kind), c.RD)
 		if err != nil {
 			endErr = err
+			openFailed = true
 			return
 		}
 		h := br.Header()
@@ -358,6 +417,13 @@ func (p *c10) Exec(x *Exec, ci interface{}) *Verdict {
 					if int64(o) == s.flat.Start[k] {
 						onRec = true
 					}
+				}
+				if openFailed && !onRec {
+					// a member boundary inside the BAM header: NewReader gave no
+					// reader, which is the error the property asks for even when
+					// its value is io.EOF
+					onRec = true
+					x.Probe("newreader_failed_at_member_boundary_inside_header")
 				}
 				if !onRec {
 					vd.V = Mismatch("trunc-clean-eof-midrecord", "%s: clean io.EOF after %d records although the cut (uncompressed offset %d) is inside a record", what, nrec, s.flat.Start[k])
